@@ -25,7 +25,7 @@ REQUIRED_BUCKETS = ['qe:scalar', 'qe:vector', 'qe:spectrum', 'qe:offset-table', 
                     'bayer:k=2', 'bayer:k=3', 'bayer:k=4', 'bayer:os=1', 'bayer:os=2', 'bayer:os>=3', 'bayer:nonsquare',
                     'bayer:channels', 'bayer:spectrum-qe', 'bayer:unit!=nm', 'gain:scalar', 'gain:poly', 'gain:pixel', 'gain:pixel-poly', 'adc:negative',
                     'adc:saturated', 'adc:dtype', 'adc:warn', 'adc:max==capacity', 'adc:small-int-frame', 'bayer:cube-not-float64', 'adc:beyond-dtype-range', 'adc:capacity=0',
-                    'qe:narrow-qe-vector', 'qe:table-ends-other-unit', 'qe:single-wavelength', 'cube:narrow-float', 'unit:alias', 'adc:narrow-float-frame', 'adc:beyond-64-bit', 'qe:spectrum-narrow-wave']
+                    'qe:narrow-qe-vector', 'qe:table-ends-other-unit', 'qe:single-wavelength', 'cube:narrow-float', 'unit:alias', 'adc:narrow-float-frame', 'adc:beyond-64-bit', 'qe:spectrum-narrow-wave', 'adc:large-integer-counts']
 REQUIRED_ANCHORS = ['probe:collect_charge', 'probe:collect_charge_bayer', 'probe:adc', 'anchor:qe_asarray',
                     'anchor:format_bayer_string']
 REQUIRED_ORACLES = ['charge=sum', 'charge:qe-forms', 'charge:linear', 'bayer=pattern', 'bayer:equal-qe=mono',
@@ -431,6 +431,12 @@ def workload(ctx, lentil):
         form = ['scalar', 'poly', 'pixel', 'pixel-poly'][i % 4]
         order = int(rng.integers(1, 5))
         scale = 10 ** float(rng.uniform(1, 4.5))
+        big = i % 13 == 6
+        if big:
+            # deep wells / co-added frames held as integers: counts whose third or fourth power leaves the 64-bit integers
+            scale = 10 ** float(rng.uniform(4.8, 6.6))
+            order = int(rng.integers(3, 5))
+            form = ['poly', 'pixel-poly'][(i // 13) % 2]
         e = rng.uniform(-0.1, 1.0, size=shape) * scale
         if rng.random() < 0.3:
             e = np.floor(e)
@@ -445,6 +451,10 @@ def workload(ctx, lentil):
             # electron frames in single / half precision (the capacity, a double, is NOT a number of that type)
             e = np.abs(e).astype(np.float32 if i % 2 else np.float16) if scale < 6e4 else np.abs(e).astype(np.float32)
             ctx.bucket('adc:narrow-float-frame')
+        if big:
+            e = np.floor(np.abs(np.asarray(e, float))).astype([np.int64, np.int32, np.uint32][(i // 26) % 3])
+            e.flat[0] = int(scale)
+            ctx.bucket('adc:large-integer-counts')
         neg = bool((e < 0).any())
         coef = lambda size=None: rng.uniform(0.0, 1.0, size=size)
         if form == 'scalar':
@@ -458,7 +468,7 @@ def workload(ctx, lentil):
         if rng.random() < 0.15 and form in ('poly', 'pixel-poly'):
             gain = -gain if rng.random() < 0.3 else gain * rng.choice([-1, 1], size=gain.shape[:1] + (1,) * (gain.ndim - 1))
         sat = None if rng.random() < 0.4 else float(rng.uniform(0.3, 1.2) * scale)
-        if sat is not None and rng.random() < 0.3:
+        if sat is not None and (rng.random() < 0.3 or big):
             sat = int(sat)
         if sat is not None and i % 5 == 1:
             # the brightest pixel sits exactly AT the capacity (typical for integer electron frames): nothing exceeds it
